@@ -304,6 +304,8 @@ class Exec:
                 v = v.d[v.k]
             elif isinstance(v, PtrCell):
                 v = v.cell.v
+            elif isinstance(v, VVec) and v.buf is not None:
+                v = v.buf
             else:
                 return v
 
